@@ -151,6 +151,10 @@ class OldRewriter(ast.NodeTransformer):
 
     def visit_Call(self, node):
         self.generic_visit(node)
+        if isinstance(node.func, ast.Name) and node.func.id == "implies" and len(node.args) == 2:
+            # lazy: the consequent is not evaluated when the antecedent is false
+            return ast.copy_location(ast.BoolOp(op=ast.Or(), values=[ast.UnaryOp(op=ast.Not(), operand=node.args[0]),
+                                                                     node.args[1]]), node)
         if isinstance(node.func, ast.Name) and node.func.id == "old" and len(node.args) == 1:
             args = ast.arguments(posonlyargs=[], args=[ast.arg(arg=n) for n in self.names], kwonlyargs=[],
                                  kw_defaults=[], defaults=[
@@ -164,6 +168,11 @@ class OldRewriter(ast.NodeTransformer):
 def spec_globals():
     spec = importlib.import_module("contracts.spec")
     g = {k: getattr(spec, k) for k in dir(spec) if not k.startswith("__")}
+    import probables
+    for k in probables.__all__:
+        g[k] = getattr(probables, k)
+    from probables.cuckoo.countingcuckoo import CountingCuckooBin
+    g["CountingCuckooBin"] = CountingCuckooBin
     return g
 
 
@@ -252,7 +261,12 @@ def check_case(key, ctx, case, per_call_timeout=5.0):
     if case.get("rand") is not None:
         script = list(case["rand"])
         install_random_script(script)
-    # requires
+    # ghost definitions, then requires
+    try:
+        for lname, ltext in c.let:
+            env[lname] = eval(compile(ast.parse(ltext, mode="eval"), "<let>", "eval"), dict(spec_globals(), **env))
+    except Exception as e:   # noqa: BLE001
+        return {"skip": f"let raised {type(e).__name__}: {e}"}
     try:
         for name, text in c.requires:
             if not eval_clause(text, env, {}):
@@ -260,6 +274,8 @@ def check_case(key, ctx, case, per_call_timeout=5.0):
     except Exception as e:
         return {"skip": f"requires raised {type(e).__name__}: {e}"}
     old_env = {k: snapshot(v) for k, v in env.items()}
+    let_names = {n for n, _ in c.let}
+    args = {k: v for k, v in args.items() if k not in let_names}
     fn, recv = resolve_callable(key, ctx, selfobj)
     exc = None
     result = None
